@@ -645,50 +645,61 @@ pub fn seq_bfs<M: SeqModel>(m: &M, max_depth: usize, max_states: u64, rep: &mut 
         if frontier.is_empty() {
             break;
         }
-        let results = par_map(&frontier, cores(), |_, h| {
-            let (sys, _) = seq_replay(m, h, false);
-            let evs = m.enabled(&sys, h);
-            drop(sys);
-            let mut succ = vec![];
-            for ev in evs {
-                let mut h2 = h.clone();
-                h2.push(ev);
-                let (s2, viols) = seq_replay(m, &h2, false);
-                let k = hash_of(&m.key(&s2));
-                let nt = m.nontrivial(&s2);
-                succ.push((k, h2, viols, nt));
-            }
-            succ
-        });
         let mut next = vec![];
-        for succ in results {
-            for (k, h2, viols, nt) in succ {
-                rep.transitions += 1;
-                rep.evaluations += 1;
-                let bad = !viols.is_empty();
-                for v in viols {
-                    rep.violation(v);
+        // the frontier is processed in chunks so that the successors (with their violation records) of only
+        // one chunk are in memory at a time
+        for chunk in frontier.chunks(4096) {
+            let results = par_map(chunk, cores(), |_, h| {
+                let (sys, _) = seq_replay(m, h, false);
+                let evs = m.enabled(&sys, h);
+                drop(sys);
+                let mut succ = vec![];
+                for ev in evs {
+                    let mut h2 = h.clone();
+                    h2.push(ev);
+                    let (s2, mut viols) = seq_replay(m, &h2, false);
+                    // one record per signature and successor is enough (all occurrences are still counted below)
+                    let mut seen_sig = std::collections::BTreeSet::new();
+                    let total = viols.len();
+                    viols.retain(|v| seen_sig.insert(v.sig_string()));
+                    let k = hash_of(&m.key(&s2));
+                    let nt = m.nontrivial(&s2);
+                    succ.push((k, h2, viols, nt, total));
                 }
-                if seen.insert(k) {
-                    rep.states += 1;
-                    if nt {
-                        rep.nontrivial_hash(k);
+                succ
+            });
+            for succ in results {
+                for (k, h2, viols, nt, _total) in succ {
+                    rep.transitions += 1;
+                    rep.evaluations += 1;
+                    let bad = !viols.is_empty();
+                    for v in viols {
+                        rep.violation(v);
                     }
-                    if rep.states % 1009 == 5 || rep.states == 12 {
-                        rep.sample(json!(h2.iter().map(|e| m.ev_str(e)).collect::<Vec<_>>().join(" ; ")));
-                    }
-                    if !bad || m.expand_after_violation() {
-                        next.push(h2);
+                    if seen.insert(k) {
+                        rep.states += 1;
+                        if nt {
+                            rep.nontrivial_hash(k);
+                        }
+                        if rep.states % 1009 == 5 || rep.states == 12 {
+                            rep.sample(json!(h2.iter().map(|e| m.ev_str(e)).collect::<Vec<_>>().join(" ; ")));
+                        }
+                        if !bad || m.expand_after_violation() {
+                            next.push(h2);
+                        }
                     }
                 }
+            }
+            if rep.states - states_at_start > max_states {
+                break;
             }
         }
-        depth_completed = d + 1;
         frontier = next;
         if rep.states - states_at_start > max_states {
-            capped = true;
+            capped = true; // this depth was not completed
             break;
         }
+        depth_completed = d + 1;
     }
     let closed = frontier.is_empty();
     if capped {
